@@ -1,4 +1,4 @@
-from typing import Union
+from typing import Optional, Union
 
 from tealer.utils.comparable_enum import ComparableEnum
 
@@ -93,7 +93,7 @@ TYPEENUM_TRANSACTION_TYPES = (
 )
 
 
-def oncompletion_to_tealer_type(value: Union[str, int]) -> "TealerTransactionType":
+def oncompletion_to_tealer_type(value: Union[str, int]) -> Optional["TealerTransactionType"]:
     ENUM_NAMES_TO_INT = {
         "NoOp": 0,
         "OptIn": 1,
@@ -112,12 +112,15 @@ def oncompletion_to_tealer_type(value: Union[str, int]) -> "TealerTransactionTyp
     }
 
     if not isinstance(value, int):
+        if value not in ENUM_NAMES_TO_INT:
+            return None
         value = ENUM_NAMES_TO_INT[value]
 
-    return INT_TO_TYPE[value]
+    # value is not a valid OnCompletion value, e.g `int 7`.
+    return INT_TO_TYPE.get(value)
 
 
-def transaction_type_to_tealer_type(value: Union[str, int]) -> "TealerTransactionType":
+def transaction_type_to_tealer_type(value: Union[str, int]) -> Optional["TealerTransactionType"]:
     ENUM_NAMES_TO_INT = {
         "pay": 1,
         "keyreg": 2,
@@ -136,9 +139,12 @@ def transaction_type_to_tealer_type(value: Union[str, int]) -> "TealerTransactio
     }
 
     if not isinstance(value, int):
+        if value not in ENUM_NAMES_TO_INT:
+            return None
         value = ENUM_NAMES_TO_INT[value]
 
-    return INT_TO_TYPE[value]
+    # value is not a valid transaction type, e.g `int 0`(unknown) or `int 7`.
+    return INT_TO_TYPE.get(value)
 
 
 class ExecutionMode(ComparableEnum):
